@@ -12,7 +12,7 @@ from multiprocessing import Pool
 
 import cbor
 from common import COPIA, NCPU, Result, SplitMix, build, finish, seed, workdir
-from fsutil import B3, STAGING, base_env, install_standin, read_traces, rmtree, run, shim_env, snapshot
+from fsutil import B3, STAGING, base_env, install_standin, read_traces, rmtree, run, shim_env, snapshot, unesc
 from hubsched import PCT, Bounded, HubRun, Inconclusive, KillAt, Op, RandomWalk, Replay, walk_root
 
 INF = 10 ** 9
@@ -545,6 +545,28 @@ def gen_bad_put(rng):
     return [prog], contents, initial, kind
 
 
+def gen_twin_put(rng):
+    """Client 0 honestly Puts GOOD to f; client 1 Puts to f declaring GOOD's hash and length but
+    streaming other bytes. Under every interleaving f may only ever hold initial or GOOD."""
+    size = rng.pick([40, 2000, 300 * 1024, 300 * 1024])
+    good = (b"GOOD-%s|" % rng.bytes(5).hex().encode()) * (size // 16 + 1)
+    good = good[:size]
+    bad = (b"EVIL-%s|" % rng.bytes(5).hex().encode()) * (size // 16 + 1)
+    bad = bad[:size]
+    contents = {"init-f": b"initial content of f", "good": good, "bad": bad}
+    initial = {"f": "init-f"} if rng.chance(1, 2) else {}
+    exp = "init" if initial else "none"
+    honest = Op(0, "Put", "f", expected=exp, content="good", pieces=rng.range(1, 4))
+    liar = Op(1, "Put", "f", expected=exp, content="bad", bad="declares-hash-of-concurrent-honest-put", pieces=rng.range(1, 4), hash_of="good")
+    progs = [[honest, Op(0, "Get", "f"), Op(0, "Bye")], [liar, Op(1, "Bye")]]
+    if rng.chance(1, 2):
+        progs.reverse()
+        for i, pr in enumerate(progs):
+            for o in pr:
+                o.client = i
+    return progs, contents, initial
+
+
 def _c10_worker(args):
     seedv, lo, hi, wroot, mode = args
     res = {"evaluations": 0, "distinct": set(), "viol": [], "counters": {}, "samples": [], "inconclusive": 0}
@@ -564,6 +586,11 @@ def _c10_worker(args):
             programs, contents, initial, badkind = gen_bad_put(rng)
             n = 1
             strat = RandomWalk(rng)
+        elif mode == "twinput":
+            rng = SplitMix.derive(seedv, "c10twin", idx)
+            programs, contents, initial = gen_twin_put(rng)
+            n = 2
+            strat = PCT(rng, 4, d=rng.range(1, 3), horizon=rng.pick([30, 60, 120])) if rng.chance(1, 2) else RandomWalk(rng)
         elif isinstance(mode, tuple) and mode[0] == "kill":
             # fixed program + fixed base schedule (seeded PCT), KILL at gate k = idx+1 of the victim
             prng = SplitMix.derive(seedv, "c10kill", mode[1])
@@ -579,9 +606,9 @@ def _c10_worker(args):
             pass
         mon = StepMonitor("C10")
         run = HubRun(wd, n, programs, contents, initial, strat, rng, on_step=mon, b3=b3)
-        if badkind:
+        if badkind or mode == "twinput":
             # resolve bad-put hashes that depend on other contents
-            for op in programs[0]:
+            for op in [o for pr in programs for o in pr]:
                 if op.extra.get("hash_of"):
                     op.extra["declared_hash"] = b3.data(contents[op.extra["hash_of"]])
                 if op.extra.get("bad") == "len-zero-with-body-hash-of-body":
@@ -614,6 +641,13 @@ def _c10_worker(args):
         if overl:
             cnt("gets_overlapped_by_a_commit")
         ov, stag, _ = overlap_stats(run, cn)
+        if mode == "twinput":
+            cnt("twin_put_schedules")
+            liar = [o for o in run.history if o.extra.get("bad")]
+            if liar and liar[0].reply and liar[0].reply.get("kind") == "PutResult" and liar[0].reply.get("committed"):
+                found.append(("C10|malformed-put-acknowledged|declares-hash-of-concurrent-honest-put", schedule_report(run, {"op": liar[0].brief()})))
+            if stag or ov:
+                res["distinct"].add("twin|" + run.interleaving_key())
         if badkind:
             cnt("bad_puts[%s]" % badkind)
             bad = [o for o in run.history if o.extra.get("bad")][0]
@@ -651,7 +685,7 @@ def c10(tier):
     th = tier == "thorough"
     wroot = workdir("c10")
     jobs = []
-    for mode, n in (("pct", 9000 if th else 420), ("random", 6000 if th else 280), ("badput", 1200 if th else 120)):
+    for mode, n in (("pct", 9000 if th else 420), ("random", 6000 if th else 280), ("badput", 1200 if th else 120), ("twinput", 6000 if th else 400)):
         per = max(1, n // (NCPU * 2))
         for lo in range(0, n, per):
             jobs.append((seed(), lo, min(n, lo + per), wroot, mode))
@@ -997,10 +1031,16 @@ def gen_c12_input(rng, b3, idx, sweep=None):
             data = full[:pos]
             inval = pos < len(cbor.MAGIC) + len(cbor.req_hello()) + 4
             return {"data": data, "cls": "cut-point", "invalid": inval, "prefixes": [], "content": content}
-    k = rng.below(12)
+    k = rng.below(13)
     prefixes = []
     inval = False
-    if k == 0:
+    if k == 12:
+        # stdin closed inside a length prefix whose bytes so far are not all zero
+        pre = rng.pick([b"\x01", b"\x00\x01", b"\x00\x00\x01", b"\xff\xff", b"\x00\x10\x00", b"\x7f"])
+        lead = rng.pick([cbor.MAGIC, cbor.MAGIC + cbor.req_hello(), cbor.MAGIC + cbor.req_hello() + cbor.req_list()])
+        data = lead + pre
+        cls, inval = "eof-inside-length-prefix", lead == cbor.MAGIC
+    elif k == 0:
         data = rng.bytes(rng.range(0, 200))
         if data[:6] == cbor.MAGIC:
             data = b"X" + data
@@ -1399,6 +1439,12 @@ class HubSyncGate:
         self.listed = {}
         self.lock_holder = None
         self.blocked = set()
+        self.released = {}
+        self.last_stage = {}
+        self.renamed = {}
+        self.rename_target = {}
+        self.list_end = {}
+        self.commit_step = {}
         self.trace = []
         self.step = 0
 
@@ -1480,7 +1526,9 @@ class HubSyncGate:
                 self.lock_holder = None
             return
         parts = line.decode("utf-8", "surrogateescape").split(" ")
-        self.pending[i] = {"op": parts[2], "path": parts[3] if len(parts) > 3 else ""}
+        self.pending[i] = {"op": parts[2], "path": unesc(parts[3]) if len(parts) > 3 else ""}
+        if parts[2] == "rename" and len(parts) > 4:
+            self.rename_target[i] = unesc(parts[4])
 
     def do_step(self, i):
         pend = self.pending.pop(i)
@@ -1503,6 +1551,14 @@ class HubSyncGate:
             self.lock_holder = None
         if pend["op"] == "opendir":
             self.listed[i] = True
+        if pend["op"] == "openw" and pend["path"].endswith(STAGING):
+            self.last_stage[i] = pend["path"]
+        if pend["op"] == "openw" and pend["path"].endswith(STAGING) and i not in self.list_end:
+            self.list_end[i] = self.step  # this client's listing was complete before this step
+        if pend["op"] == "rename" and ret == 0:
+            tgt = self.rename_target.pop(i, "")
+            self.renamed.setdefault(i, []).append(tgt)
+            self.commit_step.setdefault(i, {})[tgt] = self.step
         self.trace.append((self.step, i, "%s %s -> %d" % (pend["op"], pend["path"][-40:], ret)))
         self.await_req(i)
 
@@ -1524,6 +1580,66 @@ def stale_policy(hold, rng, jitter):
                     return others[rng.below(len(others))]
                 return hold
         return enabled[rng.below(len(enabled))]
+    return pol
+
+
+def both_stale_policy(rng):
+    """Drive BOTH servers to the point right after their listing, then interleave them at random:
+    both clients Put from stale listings and their commits overlap."""
+    def pol(g, enabled):
+        not_listed = [i for i in enabled if not g.listed.get(i)]
+        if not_listed:
+            return not_listed[rng.below(len(not_listed))]
+        waiting = [i for i in enabled if not (g.pending[i]["op"] == "read0" and not g.released.get(i))]
+        if len(g.listed) < len(g.locals) and waiting:
+            return waiting[rng.below(len(waiting))]
+        for i in enabled:
+            g.released[i] = True
+        return enabled[rng.below(len(enabled))]
+    return pol
+
+
+def rendezvous_policy(rng, contested):
+    """Both clients work from stale listings (both listed before any Put); whenever a server is about
+    to take the commit lock for a contested path it is held until the other server is at the same
+    point for the same path (or can no longer get there); then both are released in random order.
+    This is the interleaving in which a compare made outside the lock loses an update."""
+    def at_lock_for(g, i):
+        p = g.pending.get(i)
+        if not p or p["op"] != "openw" or not p["path"].endswith("commit.lock"):
+            return None
+        st = g.last_stage.get(i)
+        for c in contested:
+            if st and st.startswith(os.path.join(g.root, c) + "."):
+                return c
+        return None
+
+    def passed(g, j, c):
+        full = os.path.join(g.root, c)
+        return j not in g.gates or any(t == full or t.startswith(full + ".conflict-") for t in g.renamed.get(j, ()))
+
+    def pol(g, enabled):
+        not_listed = [i for i in enabled if not g.listed.get(i)]
+        if not_listed:
+            return not_listed[rng.below(len(not_listed))]
+        free = []
+        for i in enabled:
+            c = at_lock_for(g, i)
+            if c is None or (i, c) in g.released:
+                free.append(i)
+                continue
+            others = [j for j in range(len(g.locals)) if j != i]
+            ready = all(passed(g, j, c) or at_lock_for(g, j) == c for j in others)
+            if ready:
+                for j in range(len(g.locals)):
+                    g.released[(j, c)] = True
+                free.append(i)
+        if free:
+            return free[rng.below(len(free))]
+        # everybody is held for different paths: let the one with the smallest path go
+        i = min(enabled, key=lambda k: at_lock_for(g, k) or "")
+        g.released[(i, at_lock_for(g, i))] = True
+        return i
     return pol
 
 
@@ -1568,9 +1684,10 @@ def _c13_gate_worker(args):
             d = os.path.join(wd, "local%d" % c)
             materialise(d, files)
             locs.append(d)
-        kind = rng.pick(["stale", "stale", "stale-jitter", "random"])
+        kind = rng.pick(["stale", "stale-jitter", "random", "both-stale", "rendezvous", "rendezvous"])
         hold = rng.below(2)
-        pol = stale_policy(hold, rng, 0) if kind == "stale" else (stale_policy(hold, rng, 6) if kind == "stale-jitter" else random_policy(rng))
+        contested = sorted(p for p in set(trees[0]) & set(trees[1]) if trees[0][p] != trees[1][p])
+        pol = stale_policy(hold, rng, 0) if kind == "stale" else (stale_policy(hold, rng, 6) if kind == "stale-jitter" else (both_stale_policy(rng) if kind == "both-stale" else (rendezvous_policy(rng, contested) if kind == "rendezvous" else random_policy(rng))))
         g = HubSyncGate(wd, root, locs, base_env(home), rng, pol)
         try:
             outs = g.run()
@@ -1615,6 +1732,15 @@ def _c13_gate_worker(args):
                         res["viol"].append(("C13|gated|local-file-not-retrievable-from-hub", dict(label, client=c, path=p, code=code)))
                     else:
                         cnt("files_replaced_by_later_acknowledged_commit")
+        # lost update: j committed p although its listing was complete before i committed p
+        for pth in contested:
+            full = os.path.join(g.root, pth)
+            for i in (0, 1):
+                j = 1 - i
+                ci = g.commit_step.get(i, {}).get(full)
+                cj = g.commit_step.get(j, {}).get(full)
+                if ci is not None and cj is not None and cj > ci and g.list_end.get(j, 10 ** 9) < ci:
+                    res["viol"].append(("C13|gated|put-from-stale-listing-overwrote-a-commit", dict(label, path=pth, first_commit_step=ci, stale_listing_complete_at=g.list_end.get(j), second_commit_step=cj, exits=[o[0] for o in outs])))
         # nothing another client committed has been overwritten by a client that then reported a conflict
         for p in set(trees[0]) & set(trees[1]):
             if trees[0][p] == trees[1][p]:
